@@ -58,6 +58,17 @@ impl<F> Allocator<F> {
         self.sectors.sector_len()
     }
 
+    #[cfg(cfb_verif)]
+    pub fn verif_parts(&self) -> (u32, &[u32], &[u32], &[u32], &[u32]) {
+        (
+            self.sectors.num_sectors(),
+            &self.difat_sector_ids,
+            &self.difat,
+            &self.fat,
+            &self.free_sectors,
+        )
+    }
+
     pub fn next(&self, sector_id: u32) -> io::Result<u32> {
         let index = sector_id as usize;
         if index >= self.fat.len() {
